@@ -1,0 +1,65 @@
+//go:build verif
+
+package vm
+
+import (
+	"unsafe"
+
+	"github.com/goghcrow/yae/compiler"
+	"github.com/goghcrow/yae/parser/ast"
+	"github.com/goghcrow/yae/types"
+	"github.com/goghcrow/yae/val"
+)
+
+// Read-only accessors for verification harnesses (build tag verif).
+// Nothing here changes the behaviour of the package.
+
+// VerifCompileCallThreaded is Compile, but runs the bytecode with the
+// call-threaded dispatch loop instead of the switch loop.
+func VerifCompileCallThreaded(expr ast.Expr, env1 *val.Env) compiler.Closure {
+	bytecode := NewCompile().Compile(expr, env1)
+	return func(env *val.Env) *val.Val {
+		v := NewVM()
+		v.interp = callThreading
+		return v.Interp(bytecode, env)
+	}
+}
+
+// VerifProgram is a copy of an emitted program: code bytes and the constant
+// pool (shared by a program and the thunk bodies compiled with it).
+type VerifProgram struct {
+	Code   []byte
+	Consts []interface{}
+}
+
+// VerifCompile compiles expr and returns the emitted program.
+func VerifCompile(expr ast.Expr, env1 *val.Env) VerifProgram {
+	b := NewCompile().Compile(expr, env1)
+	return VerifProgram{Code: append([]byte(nil), b.code...), Consts: append([]interface{}(nil), b.data...)}
+}
+
+// VerifThunkBody returns the body of a deferred argument. ok is false when v
+// is not a thunk constant (a 0-ary function type named "thunk").
+func VerifThunkBody(v *val.Val) (p VerifProgram, ok bool) {
+	if v == nil || v.Type == nil || v.Type.Kind != types.KFun {
+		return p, false
+	}
+	f := v.Type.Fun()
+	if f.Name != "thunk" || len(f.Param) != 0 {
+		return p, false
+	}
+	t := (*thunkVal)(unsafe.Pointer(v))
+	if t.bytecode == nil {
+		return p, false
+	}
+	return VerifProgram{Code: append([]byte(nil), t.bytecode.code...), Consts: append([]interface{}(nil), t.bytecode.data...)}, true
+}
+
+// VerifOpcodeNames lists the instruction set: index = opcode value.
+func VerifOpcodeNames() []string {
+	names := make([]string, int(_END_))
+	for i := range names {
+		names[i] = opcode(i).String()
+	}
+	return names
+}
